@@ -15,7 +15,7 @@ def queuedCount (allowed : Bool) : Bool → List Sec → Nat
 theorem countValid_cons (a : Sec) (l : List Sec) :
     countValid (a :: l) = (if a.valid = true then 1 else 0) + countValid l := by
   unfold countValid
-  by_cases h : a.valid = true <;> simp [List.filter_cons, h]; omega
+  by_cases h : a.valid = true <;> simp [h]; omega
 
 theorem countValid_nil : countValid [] = 0 := rfl
 
@@ -149,7 +149,7 @@ theorem processSecondary_inv {c : Counters} {tid : Nat} {x0 : Slot} {pid : Optio
           (by rw [hyget, hyev]; exact hI.par) (by simp [Slot.active])
           (by rw [hyget]; simp [Slot.ident, ctr]) (by simp)
           (by rw [hyget]; rfl) (by rw [hyget]; rfl) rfl (by rw [hyget]; rfl)
-          (by rw [hyget, hident]; simp [psInplace, mintSec, makeTrackId, htold]) (by rfl)
+          (by rw [hyget, hident]; simp [psInplace, mintSec, makeTrackId, finOf, htold]) (by rfl)
         exact this
       · exact hI.off_le
       · exact hI.cap
@@ -244,5 +244,34 @@ theorem processSecondary_inv {c : Counters} {tid : Nat} {x0 : Slot} {pid : Optio
         · exact hI.par
         · exact hI.frame
         · simp [mintSec, makeTrackId]; exact hI.evok
+
+theorem queuedCount_cons (allowed ini : Bool) (sec : Sec) (rest : List Sec) :
+    queuedCount allowed ini (sec :: rest)
+      = queuedCount allowed ini [sec] + queuedCount allowed (ini || (allowed && sec.valid)) rest := by
+  cases ini <;> cases allowed <;> by_cases h : sec.valid = true <;> simp [queuedCount, h]
+
+/-- the whole inner loop over one slot's secondaries -/
+theorem psFold_inv {c : Counters} {tid : Nat} {x0 : Slot} {pid : Option Nat} {s0 : State}
+    (secs : List Sec) {l : PSLoop} (hI : PSInv c tid x0 pid s0 l)
+    (hroom : queuedCount (allowedOf s0.cfg.order x0) l.initialized secs ≤ l.offset) :
+    PSInv c tid x0 pid s0 (secs.foldl (processSecondary c tid pid) l) ∧
+    (secs.foldl (processSecondary c tid pid) l).offset
+      = l.offset - queuedCount (allowedOf s0.cfg.order x0) l.initialized secs ∧
+    (secs.foldl (processSecondary c tid pid) l).initialized
+      = (l.initialized || (allowedOf s0.cfg.order x0 && decide (countValid secs > 0))) := by
+  induction secs generalizing l with
+  | nil => simp [queuedCount, countValid_nil]; exact hI
+  | cons sec rest ih =>
+    rw [queuedCount_cons _ _ sec rest] at hroom
+    obtain ⟨h1, h2, h3⟩ := processSecondary_inv sec hI (by omega)
+    have := ih (l := processSecondary c tid pid l sec) h1 (by rw [h2, h3]; omega)
+    obtain ⟨i1, i2, i3⟩ := this
+    simp only [List.foldl_cons]
+    refine ⟨i1, ?_, ?_⟩
+    · rw [i2, h2, h3, queuedCount_cons _ _ sec rest]; omega
+    · rw [i3, h3, countValid_cons]
+      cases l.initialized <;> cases allowedOf s0.cfg.order x0 <;>
+        by_cases hv : sec.valid = true <;> simp [hv]
+      omega
 
 end CelerVerif.TrackInit
